@@ -337,7 +337,9 @@ class HashClient:
         try:
             failed = client.set_many(values, *args, **kwargs)
         except Exception as e:
-            if not self.ignore_exc:
+            # A socket error must reach _safely_run_set_many even with
+            # ignore_exc, otherwise the server is never marked as failing.
+            if not self.ignore_exc or isinstance(e, OSError):
                 return succeeded, failed, e
 
         succeeded = [key for key in values if key not in failed]
